@@ -3,8 +3,9 @@
    `Print Assumptions` beneath, and the non-vacuity examples.
 
    Every theorem quantifies over ARBITRARY universes of types, values, block types and blocks and over an
-   ARBITRARY instance predicate `inst` (GuardedIsInstance) and block predicate `binst` (the block is an
-   instance of the declared Callable type): dispatch never looks inside them.  The correspondence run
+   ARBITRARY instance predicate `inst` (GuardedIsInstance) and block predicate `binst` (`binst bt (Some bl)`: the
+   block is an instance of the declared block type; `binst bt None`: the declared block type accepts undef, i.e. a
+   missing block): dispatch never looks inside them.  The correspondence run
    instantiates them with the fragment `pty`/`pval`/`pinst` of Model/Dispatch.v.
 
    The hypotheses `Z.of_nat (length _) < max_int64` state that a Go slice has an `int` length; they hold of
@@ -20,10 +21,11 @@ Open Scope Z_scope.
    the Callable signature that createDispatch assembles (min/max bookkeeping, slot types, block type)
    accepts a call (CallableWith -> TupleType.IsInstance3) exactly when the call satisfies the declaration
    read declaratively: every required parameter takes one argument of its type, an optional one takes one if
-   there is one left, a repeated one takes all the rest, nothing is left over; block required / optional /
-   forbidden.  `Some _`: the slot lookup t.types[tdx] never runs out of range. *)
+   there is one left, a repeated one takes all the rest, nothing is left over; block forbidden / optional /
+   declared with a type (then a call without block matches exactly when that type accepts undef, whether or not
+   it is spelled Optional[..]).  `Some _`: the slot lookup t.types[tdx] never runs out of range. *)
 Theorem C16_callable_iff_decl :
-  forall (ty val bty blk : Type) (inst : ty -> val -> bool) (binst : bty -> blk -> bool)
+  forall (ty val bty blk : Type) (inst : ty -> val -> bool) (binst : bty -> option blk -> bool)
          (ops : list (bop ty bty)) (d : dispatch ty bty) (vs : list val) (b : option blk),
     build ops = Ok d -> d_hasfn d = true ->
     Z.of_nat (length ops) < max_int64 -> Z.of_nat (length vs) < max_int64 ->
@@ -34,7 +36,7 @@ Print Assumptions C16_callable_iff_decl.
 
 (* The same for the canonical builder program of a declaration (the form of DESIGN.md 5/C16). *)
 Theorem C16_callable_iff_decl_canonical :
-  forall (ty val bty blk : Type) (inst : ty -> val -> bool) (binst : bty -> blk -> bool)
+  forall (ty val bty blk : Type) (inst : ty -> val -> bool) (binst : bty -> option blk -> bool)
          (d : list (param ty)) (r : blockreq bty) (dd : dispatch ty bty) (vs : list val) (b : option blk),
     build (ops_of_decl d r) = Ok dd ->
     Z.of_nat (length d) < max_int64 - 2 -> Z.of_nat (length vs) < max_int64 ->
@@ -73,7 +75,7 @@ Print Assumptions C16_decl_is_window_and_slots.
    goFunction.Call runs the body of the FIRST dispatch whose declaration the call satisfies, and raises the
    reported argument error when there is none.  Nothing else can happen (no runtime fault). *)
 Theorem C16_call_is_first_match :
-  forall (ty val bty blk : Type) (inst : ty -> val -> bool) (binst : bty -> blk -> bool)
+  forall (ty val bty blk : Type) (inst : ty -> val -> bool) (binst : bty -> option blk -> bool)
          (dss : list (list (bop ty bty))) (ds : list (dispatch ty bty)) (vs : list val) (b : option blk),
     fn_built dss ds -> Z.of_nat (length vs) < max_int64 ->
     call inst binst ds vs b =
@@ -82,7 +84,7 @@ Proof. exact call_is_first_match. Qed.
 Print Assumptions C16_call_is_first_match.
 
 Theorem C16_first_match :
-  forall (ty val bty blk : Type) (inst : ty -> val -> bool) (binst : bty -> blk -> bool)
+  forall (ty val bty blk : Type) (inst : ty -> val -> bool) (binst : bty -> option blk -> bool)
          (dss : list (list (bop ty bty))) (ds : list (dispatch ty bty)) (vs : list val) (b : option blk) (i : nat),
     fn_built dss ds -> Z.of_nat (length vs) < max_int64 ->
     (call inst binst ds vs b = RBody i <->
@@ -95,7 +97,7 @@ Print Assumptions C16_first_match.
 
 (* no body ever runs with arguments (or a block) outside its declaration *)
 Theorem C16_no_body_outside_decl :
-  forall (ty val bty blk : Type) (inst : ty -> val -> bool) (binst : bty -> blk -> bool)
+  forall (ty val bty blk : Type) (inst : ty -> val -> bool) (binst : bty -> option blk -> bool)
          (dss : list (list (bop ty bty))) (ds : list (dispatch ty bty)) (vs : list val) (b : option blk) (i : nat),
     fn_built dss ds -> Z.of_nat (length vs) < max_int64 ->
     call inst binst ds vs b = RBody i ->
@@ -105,7 +107,7 @@ Print Assumptions C16_no_body_outside_decl.
 
 (* when no dispatch matches, and only then, the reported argument error is raised *)
 Theorem C16_no_match_is_arg_error :
-  forall (ty val bty blk : Type) (inst : ty -> val -> bool) (binst : bty -> blk -> bool)
+  forall (ty val bty blk : Type) (inst : ty -> val -> bool) (binst : bty -> option blk -> bool)
          (dss : list (list (bop ty bty))) (ds : list (dispatch ty bty)) (vs : list val) (b : option blk),
     fn_built dss ds -> Z.of_nat (length vs) < max_int64 ->
     (call inst binst ds vs b = RArgError <->
@@ -114,7 +116,7 @@ Proof. exact no_match_is_arg_error. Qed.
 Print Assumptions C16_no_match_is_arg_error.
 
 Theorem C16_call_never_faults :
-  forall (ty val bty blk : Type) (inst : ty -> val -> bool) (binst : bty -> blk -> bool)
+  forall (ty val bty blk : Type) (inst : ty -> val -> bool) (binst : bty -> option blk -> bool)
          (dss : list (list (bop ty bty))) (ds : list (dispatch ty bty)) (vs : list val) (b : option blk),
     fn_built dss ds -> Z.of_nat (length vs) < max_int64 ->
     (exists i : nat, call inst binst ds vs b = RBody i) \/ call inst binst ds vs b = RArgError.
@@ -124,7 +126,7 @@ Print Assumptions C16_call_never_faults.
 (* The same reading of goFunction.Call for ANY list of dispatchers (built or not), in terms of the
    signatures themselves: the first dispatcher whose signature is CallableWith the call. *)
 Theorem C16_first_callable_signature :
-  forall (ty val bty blk : Type) (inst : ty -> val -> bool) (binst : bty -> blk -> bool)
+  forall (ty val bty blk : Type) (inst : ty -> val -> bool) (binst : bty -> option blk -> bool)
          (ds : list (dispatch ty bty)) (k : nat) (vs : list val) (b : option blk) (i : nat),
     call_from inst binst ds k vs b = RBody i <->
     exists (j : nat) (d : dispatch ty bty),
@@ -135,6 +137,43 @@ Theorem C16_first_callable_signature :
 Proof. exact call_from_body. Qed.
 Print Assumptions C16_first_callable_signature.
 
+(* ---- histories in one context ----------------------------------------------------------------------------- *)
+
+(* pxContext.DoWithLoader puts the loader back however doer ends (normal return or panic). *)
+Theorem C16_do_with_loader_restores :
+  forall (A : Type) (c : pctx) (l : lchain) (doer : pctx -> pctx * res A), fst (do_with_loader c l doer) = c.
+Proof. exact do_with_loader_restores. Qed.
+Print Assumptions C16_do_with_loader_restores.
+
+(* For EVERY context and every function (any local types, any dispatch programs): when BuildFunction + Resolve is
+   over - the dispatches were created, the builder panicked, or Resolve raised a reported error that the caller
+   recovers - the context's loader is the one from before: no local type stays behind. *)
+Theorem C16_resolve_restores_loader :
+  forall (c : pctx) (f : fndecl), fst (resolve_fn c f) = c.
+Proof. exact resolve_fn_restores. Qed.
+Print Assumptions C16_resolve_restores_loader.
+
+Theorem C16_failed_resolve_restores_loader :
+  forall (c c' : pctx) (f : fndecl) (e : nat * pcode), resolve_fn c f = (c', inl e) -> c' = c.
+Proof. exact resolve_fn_failure_restores. Qed.
+Print Assumptions C16_failed_resolve_restores_loader.
+
+(* For EVERY history of functions built and resolved one after the other in the same context (by induction over
+   the history; failed ones included): each function resolves to exactly what it resolves to alone in the initial
+   context - its declared parameter types are read against its OWN local types, never against those of an earlier
+   function.  With C16_call_is_first_match this gives first-match dispatch for every function of every history. *)
+Theorem C16_history_independent :
+  forall (h : list fndecl) (c : pctx),
+    run_history c h = (c, map (fun f => snd (resolve_fn c f)) h).
+Proof. exact history_independent. Qed.
+Print Assumptions C16_history_independent.
+
+Theorem C16_history_nth :
+  forall (h : list fndecl) (c : pctx) (k : nat) (f : fndecl),
+    nth_error h k = Some f -> nth_error (snd (run_history c h)) k = Some (snd (resolve_fn c f)).
+Proof. exact history_nth. Qed.
+Print Assumptions C16_history_nth.
+
 (* ---- new ------------------------------------------------------------------------------------------------ *)
 
 (* For EVERY receiver (a type, Init[T,...], the name of a type), every constructor whatsoever (registered by
@@ -142,7 +181,7 @@ Print Assumptions C16_first_callable_signature.
    list: what newInstance / InitType.New yields is an instance of the type it was asked to create
    (`target`: the receiver; for Init[T,...] the type T; for a name the type loaded under it). *)
 Theorem C16_new_in_type :
-  forall (ty val bty blk : Type) (inst : ty -> val -> bool) (binst : bty -> blk -> bool) (tname : ty -> str)
+  forall (ty val bty blk : Type) (inst : ty -> val -> bool) (binst : bty -> option blk -> bool) (tname : ty -> str)
          (init_parts : ty -> option (option ty * list val)) (creatable : ty -> option (ctor ty val bty))
          (loader_ctor : str -> option (ctor ty val bty)) (load_type : str -> option ty)
          (as_array : val -> option (list val)) (r : recv ty) (args : list val) (v : val) (t : ty),
@@ -152,7 +191,7 @@ Proof. exact new_in_type. Qed.
 Print Assumptions C16_new_in_type.
 
 Theorem C16_new_other_receiver_is_reported :
-  forall (ty val bty blk : Type) (inst : ty -> val -> bool) (binst : bty -> blk -> bool) (tname : ty -> str)
+  forall (ty val bty blk : Type) (inst : ty -> val -> bool) (binst : bty -> option blk -> bool) (tname : ty -> str)
          (init_parts : ty -> option (option ty * list val)) (creatable : ty -> option (ctor ty val bty))
          (loader_ctor : str -> option (ctor ty val bty)) (load_type : str -> option ty)
          (as_array : val -> option (list val)) (args : list val),
@@ -163,7 +202,7 @@ Print Assumptions C16_new_other_receiver_is_reported.
 (* a value comes out only when there is a type to belong to — or for a name under which the loader has a
    constructor but no type (then newInstance has nothing to check against, types.go:481) *)
 Theorem C16_new_value_has_target :
-  forall (ty val bty blk : Type) (inst : ty -> val -> bool) (binst : bty -> blk -> bool) (tname : ty -> str)
+  forall (ty val bty blk : Type) (inst : ty -> val -> bool) (binst : bty -> option blk -> bool) (tname : ty -> str)
          (init_parts : ty -> option (option ty * list val)) (creatable : ty -> option (ctor ty val bty))
          (loader_ctor : str -> option (ctor ty val bty)) (load_type : str -> option ty)
          (as_array : val -> option (list val)) (r : recv ty) (args : list val) (v : val),
@@ -177,7 +216,7 @@ Print Assumptions C16_new_value_has_target.
    a value or a reported error, never a runtime fault (the dispatch and the Init[T] argument juggling add
    none). *)
 Theorem C16_new_no_fault :
-  forall (ty val bty blk : Type) (inst : ty -> val -> bool) (binst : bty -> blk -> bool) (tname : ty -> str)
+  forall (ty val bty blk : Type) (inst : ty -> val -> bool) (binst : bty -> option blk -> bool) (tname : ty -> str)
          (init_parts : ty -> option (option ty * list val)) (creatable : ty -> option (ctor ty val bty))
          (loader_ctor : str -> option (ctor ty val bty)) (load_type : str -> option ty)
          (as_array : val -> option (list val)) (r : recv ty) (args : list val),
@@ -216,7 +255,7 @@ Qed.
    dispatch, optional block accepted / refused by its type, block given to block-less dispatches *)
 Example C16_dispatch_nonvacuous :
   match build_function ex_dss with
-  | inr ds => map (fun c => call pinst (btab_inst [(0%N, 1%N)]) ds (fst c) (snd c))
+  | inr ds => map (fun c => call pinst (btab_inst [(0%N, Some 1%N)]) ds (fst c) (snd c))
                   [ ([VInt 3], None); ([VInt 7], None); ([VInt 7; VStr [97%N]], None); ([VStr [97%N]], None);
                     ([VStr [97%N]], Some 1%N); ([VStr [97%N]], Some 2%N); ([VInt 3], Some 1%N); ([], None) ]
   | inl _ => []
@@ -272,4 +311,33 @@ Example C16_boolean_new_nonvacuous :
         [VStr [89%N; 69%N; 83%N]]; [VStr [97%N]]; [VUndef]; []; [VInt 1; VInt 2] ]
   = [ OVal (VBool false); OVal (VBool true); OVal (VBool false); OVal (VBool false); OVal (VBool false);
       OVal (VBool false); OVal (VBool true); OErr EArg; OErr EArg; OErr EArg; OErr EArg ].
+Proof. vm_compute. reflexivity. Qed.
+
+(* a declared block type that accepts undef without being an optional block (block type 3, e.g. an alias of
+   Optional[Callable[1,1]]): the dispatch is chosen for a call without block; block type 2 does not accept undef *)
+Example C16_block_type_accepting_undef_nonvacuous :
+  match build_function [ [OParam (PInteger 0 5); OBlock 3%N; OFunction2]; [OParam (PInteger 0 5); OBlock 2%N; OFunction2];
+                         [OParam PAny; OFunction] ] with
+  | inr ds => map (fun c => call pinst (btab_inst [(3%N, None); (3%N, Some 1%N); (2%N, Some 4%N)]) ds (fst c) (snd c))
+                  [ ([VInt 3], None); ([VInt 3], Some 1%N); ([VInt 3], Some 4%N); ([VInt 3], Some 5%N); ([VInt 7], None) ]
+  | inl _ => []
+  end = [RBody 0; RBody 0; RBody 1; RArgError; RBody 2].
+Proof. vm_compute. reflexivity. Qed.
+
+(* a history: `limits` (Wide = Integer[0,5], Narrow = Integer[0,99]), then a function with the same local names
+   bound to other types whose Resolve raises (parameter Integer[9,0]), then `limits` again: the third resolves
+   like the first, and 6 goes to the second dispatch both times *)
+Definition ex_wide : str := [87;105;100;101]%N.
+Definition ex_narrow : str := [78;97;114;114;111;119]%N.
+Definition ex_limits : fndecl :=
+  ([(ex_wide, PInteger 0 5); (ex_narrow, PInteger 0 99)],
+   [[OParam (PRef ex_wide); OFunction]; [OParam (PRef ex_narrow); OFunction]]).
+Definition ex_broken : fndecl :=
+  ([(ex_wide, PInteger min_int64 max_int64); (ex_narrow, PInteger 0 9)],
+   [[OParam (PRef ex_wide); OParam (PRef ex_narrow); OParam (PInteger 9 0); OFunction]]).
+
+Example C16_history_nonvacuous :
+  map (fun r => obs_of [] r [([VInt 3], None); ([VInt 6], None); ([VInt 100], None)])
+      (snd (run_history ctx0 [ex_limits; ex_broken; ex_limits]))
+  = [ ObsCalls [RBody 0; RBody 1; RArgError]; ObsPanic 0 POther; ObsCalls [RBody 0; RBody 1; RArgError] ].
 Proof. vm_compute. reflexivity. Qed.
